@@ -233,7 +233,9 @@ def check(w):
                 if not ok:
                     confirmed.append(t)
             if not confirmed:
-                raise Broken("rejected capacity runs passed on re-run (no verdict): ids %s" % sorted(i for i in rej if i < 100000)[:10])
+                if len(cap_again) > max(3, len(lines) // 1000):
+                    raise Broken("rejected capacity runs passed on re-run (no verdict): ids %s" % sorted(i for i in rej if i < 100000)[:10])
+                v.notes.append("%d rejected capacity run(s) passed on re-run and were dropped (no verdict from them): ids %s" % (len(cap_again), sorted(ln["id"] for ln in cap_again)[:10]))
         for t in [x for x in traces if x["id"] in rej and x["kind"] == "conc"]:
             confirmed.append(t)        # a recorded race report / wrong result of a real run is its own evidence
         for t in confirmed:
@@ -284,7 +286,9 @@ def check(w):
         wtr2 = wire_traces([ln for ln in again if ln["id"] in byid2], byid2)
         wrej2 = wire_validate(w, wtr2, "confirm")[0] if wtr2 else {}
         if not wrej2:
-            raise Broken("action-level rejections not reproduced on re-run: %s" % sorted(wrej)[:8])
+            if len(wrej) > max(3, len(wtr) // 1000):
+                raise Broken("action-level rejections not reproduced on re-run: %s" % sorted(wrej)[:8])
+            v.notes.append("%d action-level rejection(s) did not reproduce on re-run and were dropped (no verdict from them): %s" % (len(wrej), sorted(wrej)[:8]))
         for t in wtr2:
             if t["id"] in wrej2:
                 ln = next(x for x in lines if x["id"] == t["id"])
